@@ -15,6 +15,7 @@ from unittest import mock
 from . import common as C
 from . import reply_common as R
 from . import vsim
+from . import wiregen as W
 
 TRACE = True
 TRUSTED = [
@@ -22,9 +23,16 @@ TRUSTED = [
     "(taken from the real functions with an empty known-answer set; C03's subject), as is the cache entry of each record at assembly time",
     "wire encoding of names and rdata is C01's subject: C11 decodes the emitted datagrams with the library's own `DNSIncoming` and, for the "
     "header id/flags and the class field, reads the raw bytes",
-    "sockets are simulated (one IPv4, optionally one IPv6 transport per host); OS-level routing of the datagram is not exercised",
+    "sockets are simulated (one to three transports of either family per host); OS-level routing of the datagram is not exercised: that a query "
+    "arrives on a socket of its source address's family is the hypothesis `World.SameFamily` of the socket-level theorems",
 ]
 ASSUMPTIONS = ["integer-millisecond clock",
+               "a querier is a source sockaddr (address AND port): the two behaviours of the unchanged tree that contradict this reading are reported as known findings "
+               "(D35: identical bytes from another source within 1 s are dropped; D36: a held truncated packet and a plain query from two ports of one address are merged)",
+               "`async_remove_answers` (unregistration while answers are queued) is not in the Reply model: after an unregistration inside a scenario, queue flushes are "
+               "compared on the answers that were not withdrawn (additionals not at all); the oracle still demands the remaining answers within 1.2 s",
+               "replies of any size: the datagrams of one `async_send` call are taken together at the logical level, judged one by one by the oracle and compared byte for "
+               "byte with the model's encoder output (10..40 services: replies of 2..8 datagrams)",
                "one flowinfo/scope id per link-local peer address within a scenario (two peers with the same address text on different scopes are not generated)",
                "UDP source port 0 is not generated: `async_send_with_transport` sends to `port or 5353`, so a legacy query from port 0 would be "
                "answered to port 5353; port 0 is not a usable source port (RFC 768: 'no reply expected'), the model answers to `port`", "queries are delivered on one socket of the host per scenario (each socket has its own listener object)"]
@@ -99,11 +107,45 @@ def run_fmt_stream(ctx, res):
                     lines.append("c11reply %s %s %d %d %s" % (C.b01(unicast), C.b01(us), ident, r.class_, C.b01(r.unique)))
                     exp.append("%d %d %d" % (wid, flags, classes[0]))
                     cases.append(dict(stream="fmt", constructor="unicast" if unicast else "multicast", multicast=not unicast, ucast_source=us, id=ident, rec=C.rec_line(r)))
+                    # ... and the constructor's whole datagram, byte for byte, through C01's encoder model (`c11bytes`)
+                    lines.append(bytes_line(unicast, us, ident, [(q.name, q.type, q.class_, q.unique)], [r], []))
+                    exp.append("ok " + C.hx(data))
+                    cases.append(dict(stream="fmt", constructor="unicast" if unicast else "multicast", multicast=not unicast, ucast_source=us, id=ident,
+                                      rec=C.rec_line(r), bytes=True))
                     if unicast and (wid != ident or flags != 0x8400 or classes[0] >= 0x8000 or qd != (1 if us else 0)):
                         res.violate("C11:unicast-format", "construct_outgoing_unicast_answers(id %d, ucast_source %s): id %d flags %#x questions %d class %#x" % (
                             ident, us, wid, flags, qd, classes[0]), cases[-1])
                     if not unicast and (wid != 0 or flags != 0x8400 or qd != 0 or (classes[0] >= 0x8000) != r.unique):
                         res.violate("C11:multicast-format", "construct_outgoing_multicast_answers: id %d flags %#x qd %d class %#x" % (wid, flags, qd, classes[0]), cases[-1])
+    # a reply too large for one datagram: 40 services' worth of TXT (300 bytes each) + SRV as additionals; every datagram of the split
+    # is judged (id, flags, question section only where the echo puts it, flush bits) and compared byte for byte with the model
+    big = []
+    for i in range(40):
+        nm = "svc%02d._a._tcp.local." % i
+        big.append((d.DNSText(nm, k._TYPE_TXT, k._CLASS_IN | k._CLASS_UNIQUE, 4500, bytes([255]) + bytes([97 + i % 26]) * 255 + b"\x2b" + b"x" * 43),
+                    d.DNSService(nm, k._TYPE_SRV, k._CLASS_IN | k._CLASS_UNIQUE, 120, 0, 0, 8000 + i, "h%02d.local." % i)))
+    big.append((d.DNSPointer("_a._tcp.local.", k._TYPE_PTR, k._CLASS_IN, 4500, "svc00._a._tcp.local."), None))
+    answers = {a: ({b} if b is not None else set()) for a, b in big}
+    for unicast in (True, False):
+        ident = 0x4242
+        out = construct_outgoing_unicast_answers(answers, True, [q], ident) if unicast else construct_outgoing_multicast_answers(answers)
+        pk = out.packets()
+        lines.append(bytes_line(unicast, True, ident, [(q.name, q.type, q.class_, q.unique)], [a for a, _n in out.answers], list(out.additionals)))
+        exp.append("ok " + " ".join(C.hx(x) for x in pk))
+        cases.append(dict(stream="fmt", constructor="unicast" if unicast else "multicast", multicast=not unicast, ucast_source=True, id=ident,
+                          rec="%d answers" % len(answers), bytes=True, datagrams=len(pk)))
+        res.count("fmt:split-reply-datagrams", len(pk))
+        nq = 0
+        for x in pk:
+            wid, flags, qd, classes, m_ = raw_classes(x)
+            nq += qd
+            types = [r.type for r in m_.answers()]
+            if unicast and (wid != ident or flags != 0x8400 or any(c >= 0x8000 for c in classes)):
+                res.violate("C11:unicast-format", "a datagram of a split unicast reply has id %d flags %#x classes %s" % (wid, flags, classes[:4]), cases[-1])
+            if not unicast and (wid != 0 or flags != 0x8400 or qd != 0 or any((c >= 0x8000) != (t != k._TYPE_PTR) for c, t in zip(classes, types))):
+                res.violate("C11:multicast-format", "a datagram of a split multicast reply has id %d flags %#x qd %d" % (wid, flags, qd), cases[-1])
+        if unicast and nq != 1:
+            res.violate("C11:question-echo", "a split unicast reply to a legacy source echoes %d questions in total, the query had 1" % nq, cases[-1])
     model = None
     if ctx["driver_ok"]:
         try:
@@ -112,7 +154,8 @@ def run_fmt_stream(ctx, res):
             res.notes.append("driver unavailable: %s" % ex)
     for i, case in enumerate(cases):
         res.evaluations += 1
-        res.nontriv("fmt/%s/%s" % (case["multicast"], exp[i].split()[2]))
+        if not case.get("bytes"):
+            res.nontriv("fmt/%s/%s" % (case["multicast"], exp[i].split()[2]))
         if model is not None and model[i] != exp[i]:
             res.disagree("c11fmt", case, exp[i], model[i])
 
@@ -151,12 +194,16 @@ class Sock6(vsim.FakeSock):
 
 
 class Host2(vsim.Host):
-    """a host with several sockets: `vsim` keeps every transport in `self.transports` (creation order = socket order);
-    `transport` (what `deliver` and the loopback use) stays the first one"""
+    """a host with several sockets: `vsim` keeps every transport in `self.transports` (creation order = socket order)"""
 
     @property
     def transport(self):
-        return self.transports[0] if getattr(self, "transports", None) else None
+        # what `vsim.Net` loops the IPv4 group back to: an IPv4 socket of the host if it has one (an IPv6 socket does not hear
+        # 224.0.0.251; its own loop-back is `V6Loopback`), else the first socket
+        ts = getattr(self, "transports", None)
+        if not ts:
+            return None
+        return next((t for t in ts if not isinstance(t.sock, Sock6)), ts[0])
 
     @transport.setter
     def transport(self, tr):
@@ -174,7 +221,7 @@ def make_host(sim, layout):
         if fam == "4":
             socks.append(vsim.FakeSock(10 + i, ("10.0.%d.1" % i, 5353)))
         else:
-            socks.append(Sock6(10 + i, ("fe80::%d" % (i + 1), 5353, 0, 3 + i)))
+            socks.append(Sock6(10 + i, ("fe80::%d" % (i + 1), 5353, 2 * i, 3 + i)))  # flowinfo 0/2/4, scope id 3/4/5
     for s in socks:
         vsim._sock_host[id(s)] = host
     with mock.patch.object(core, "create_sockets", lambda *a, **k: (None, socks)):
@@ -184,10 +231,139 @@ def make_host(sim, layout):
     return host
 
 
-def run_scenario(seed, sc_no):
+def plant(zc, e):
+    """a scenario sets "when the host last saw this record multicast": the cache entry, and with it every copy of the same record that
+    was heard on an IPv6 socket (same record on the wire, stored with that socket's scope id) -- a real multicast refreshes them together"""
+    from zeroconf import _dns as d
+
+    recs = [e]
+    store = zc.cache.cache.get(e.key)
+    if store is not None and isinstance(e, d.DNSAddress):
+        for x in list(store):
+            if isinstance(x, d.DNSAddress) and x.type == e.type and x.class_ == e.class_ and x.address == e.address and x.scope_id != e.scope_id:
+                recs.append(d.DNSAddress(e.name, e.type, e.class_ | (0x8000 if e.unique else 0), e.ttl, e.address, scope_id=x.scope_id, created=e.created))
+    zc.cache.async_add_records(recs)
+    return recs
+
+
+class V6Loopback:
+    """IP_MULTICAST_LOOP for the IPv6 sockets of the simulated host (`vsim.Net` loops back the IPv4 group only): a datagram the host
+    sends to ff02::fb on an IPv6 socket is heard on that socket, from the socket's own link-local address -- the 4-tuple sockaddr with
+    the interface's scope id, which the listener stamps on every AAAA record it parses (finding D29: the host then holds its own AAAA
+    records with a scope id and looks them up without one)."""
+
+    def __init__(self, sim, host):
+        self.sim, self.host = sim, host
+        self.orig = vsim.FakeTransport.sendto
+        me = self
+
+        def sendto(self_, data, addr=None):
+            r = me.orig(self_, data, addr)
+            if self_.host is host and addr is not None and addr[0] == MDNS6 and not self_.closed and isinstance(self_.sock, Sock6):
+                name = self_.sock.getsockname()
+                sim.loop.call_later(0, self_.protocol.datagram_received, bytes(data), (name[0], 5353, name[2], name[3]))
+            return r
+
+        vsim.FakeTransport.sendto = sendto
+
+    def remove(self):
+        vsim.FakeTransport.sendto = self.orig
+
+
+MODES = ["classic"] * 10 + ["big"] * 3 + ["twin"] * 2 + ["ports"] * 2 + ["update"] * 2 + ["unregister"] * 2 + ["v6own"] * 1
+
+
+def make_big_infos(xr):
+    """10..40 services of one type: the answer to a PTR / ANY / enumeration question does not fit one datagram"""
+    from zeroconf import ServiceInfo
+
+    n = xr.choice([10, 16, 24, 40])
+    t = "_a._tcp.local."
+    infos = []
+    for i in range(n):
+        addrs = [socket.inet_aton("10.0.%d.%d" % (i // 200, i % 200 + 1))]
+        if i % 3 == 0:
+            addrs.append(socket.inet_pton(socket.AF_INET6, "fe80::%x" % (i + 1)))
+        infos.append(ServiceInfo(t, "Printer-%02d-%s.%s" % (i, "x" * (i % 7), t), 8000 + i, addresses=addrs, server="host%02d.local." % (i // 2),
+                                 properties={"path": "/%d" % i, "note": "n" * (10 + i % 30)},
+                                 host_ttl=xr.choice([120, 120, 8]), other_ttl=xr.choice([4500, 4500, 5])))
+    return infos
+
+
+def make_registry_infos(xr, mode):
+    """update: exactly one service; unregister: two or three services of one type (own hosts, or one shared host)"""
+    from zeroconf import ServiceInfo
+
+    n = 1 if mode in ("update", "v6own") else xr.choice([2, 2, 3])
+    share = xr.random() < 0.4
+    infos = []
+    for i in range(n):
+        addrs = [socket.inet_aton("10.0.0.%d" % (i + 1))]
+        if mode == "v6own" or xr.random() < 0.5:
+            addrs.append(socket.inet_pton(socket.AF_INET6, "fe80::%d" % (i + 1)))
+        infos.append(ServiceInfo("_a._tcp.local.", "Inst%d._a._tcp.local." % i, 8000 + i, addresses=addrs,
+                                 server="hostS.local." if share else "host%d.local." % i, properties={"k": "v%d" % i},
+                                 host_ttl=xr.choice([120, 120, 8]), other_ttl=xr.choice([4500, 4500, 5])))
+    return infos
+
+
+async def registry_family(sim, xr, box, zc, tr, uni, infos, deliver, peer):
+    """wave-4 seeds: queries around registry changes.  `update`: the only service was updated before the trace -- legacy, QU, QM and
+    probe queries must all be answered.  `unregister`: a query for the type is answered (unicast at once, pointer records queued for
+    multicast); a sibling is unregistered while they wait -- the remaining instance's answer must still go out."""
+    from zeroconf import DNSOutgoing, DNSQuestion, const as _k
+
+    def query(questions, port, ident, probe=False):
+        out = DNSOutgoing(_k._FLAGS_QR_QUERY)
+        for (name, typ, qu) in questions:
+            q = DNSQuestion(name, typ, _k._CLASS_IN)
+            q.unicast = qu
+            out.add_question(q)
+        if probe:
+            out.add_authorative_answer(infos[0].dns_pointer())
+        d = bytearray(out.packets()[0])
+        d[0], d[1] = ident >> 8, ident & 255
+        return bytes(d)
+
+    inf = infos[0]
+    if box["mode"] == "update":
+        shapes = [([(inf.type, _k._TYPE_PTR, False)], 40000), ([(inf.name, _k._TYPE_SRV, True)], 5353), ([(inf.name, _k._TYPE_TXT, False)], 5353),
+                  ([(inf.server, _k._TYPE_A, False)], 65535), ([(inf.name, _k._TYPE_ANY, True), (inf.type, _k._TYPE_PTR, False)], 5353)]
+        for k_ in range(xr.choice([2, 3, 4])):
+            qs, port = xr.choice(shapes)
+            deliver(query(qs, port, xr.choice([0, 1, 0x1234]) + k_, probe=xr.random() < 0.2), peer(xr.choice(["10.0.0.9", "10.0.0.8"]), "fe80::9", port), family="update")
+            await sim.sleep_ms(xr.choice([0, 1, 130, 1001, 2500]))
+        return
+    # unregister
+    port = xr.choice([5353, 5353, 40000, 5354])
+    if xr.random() < 0.4:
+        # seen less than a second ago: the pointer records go to the protected queue (1 .. 1.2 s)
+        for i_ in infos:
+            e = R.with_ttl(i_.dns_pointer(), int(i_.other_ttl))
+            e.created = float(sim.loop.ms - xr.choice([0, 500, 999]))
+            plant(zc, e)
+            tr.pokes.append((sim.loop.ms, uni.id(i_.dns_pointer())))
+    deliver(query([(inf.type, _k._TYPE_PTR, False)], port, 0 if port == 5353 else 0x4242), peer("10.0.0.9", "fe80::9", port), family="unregister")
+    await sim.sleep_ms(xr.choice([1, 5, 15]))
+    gone = infos[-1]
+    withdrawn = [gone.dns_pointer(), gone.dns_service(), gone.dns_text()]
+    if not [i_ for i_ in infos[:-1] if i_.server_key == gone.server_key]:
+        withdrawn += list(gone._get_address_and_nsec_records(None))
+    box["withdrawn"] = {uni.id(r) for r in withdrawn}
+    box["withdrawn_at"] = sim.loop.ms
+    t = await zc.async_unregister_service(gone)
+    await sim.sleep_ms(xr.choice([1500, 2500]))
+    # afterwards the remaining instances still answer
+    deliver(query([(inf.type, _k._TYPE_PTR, False), (inf.name, _k._TYPE_SRV, xr.random() < 0.5)], port, 7), peer("10.0.0.8", "fe80::8", port), family="unregister")
+    await t
+
+
+def run_scenario(seed, sc_no, mode=None):
     sim = vsim.Sim(seed="c11/%s/%s" % (seed, sc_no), maxdelay=0)
     rng = C.rng_for(seed, "c11", "tr", sc_no)
     jrng = C.rng_for(seed, "c11", "jitter", sc_no)
+    xr = C.rng_for(seed, "c11", "mode", sc_no)     # the scenario families added after the second review draw from their own stream
+    mode = mode or xr.choice(MODES)
 
     def biased(lo, hi):
         x = jrng.random()
@@ -196,30 +372,130 @@ def run_scenario(seed, sc_no):
         return v
 
     sim.randint = biased
-    box = {}
+    box = {"mode": mode}
 
     async def main(sim):
         layout = rng.choice(["4", "4", "46", "44", "446", "64"])
+        if mode != "classic" and xr.random() < 0.3:
+            layout = xr.choice(["6", "66", "664"])      # IPv6-only hosts (second review: never generated before)
+        if mode == "v6own":
+            layout = xr.choice(["6", "66"])             # no IPv4 socket: the host hears its own records only with a scope id
         host = make_host(sim, layout)
+        box["v6loop"] = V6Loopback(sim, host)
         zc = host.zc
         await zc.async_wait_for_start()
-        infos = R.make_infos(rng, ttl_bias=[1, 2, 4, 5, 8, 120, 120, 4500])
+        if mode == "big":
+            infos = make_big_infos(xr)
+        elif mode in ("update", "unregister", "v6own"):
+            infos = make_registry_infos(xr, mode)
+        else:
+            infos = R.make_infos(rng, ttl_bias=[1, 2, 4, 5, 8, 120, 120, 4500])
         uni = R.Universe()
-        R.seed_universe(uni, infos)
-        for inf in infos:
-            t = await zc.async_register_service(inf)
+        if mode == "update":
+            # exactly one service, registered, then updated (new TXT and port) before the trace starts: the registry must still answer
+            from zeroconf import ServiceInfo
+            old = infos[0]
+            t = await zc.async_register_service(old)
             await t
-        await sim.sleep_ms(rng.choice([1200, 2000, 30000, 1200000]))
+            await sim.sleep_ms(xr.choice([1200, 5000]))
+            new = ServiceInfo(old.type, old.name, old.port + 1, addresses=old.addresses, server=old.server, properties={"k": "updated"},
+                              host_ttl=old.host_ttl, other_ttl=old.other_ttl)
+            t = await zc.async_update_service(new)
+            await t
+            infos = [new]
+        R.seed_universe(uni, infos)
+        if mode == "update":
+            await sim.sleep_ms(xr.choice([1200, 2000, 30000]))
+        elif mode == "big":
+            for inf in infos:
+                zc.registry.async_add(inf)      # no probing / announcing: 40 registrations would only cost time
+            await sim.sleep_ms(1200)
+        else:
+            for inf in infos:
+                t = await zc.async_register_service(inf)
+                await t
+            await sim.sleep_ms(rng.choice([1200, 2000, 30000, 1200000]))
         rx_i = rng.randrange(len(layout))
         rx_v6 = layout[rx_i] == "6"
         rx_tr = host.transports[rx_i]
         tr = R.Trace(sim, host, uni)
         tr.install()
-        box.update(tr=tr, uni=uni, infos=infos, zc=zc, layout=layout, rx_i=rx_i, rx_v6=rx_v6, lis=rx_tr.protocol, nsocks=len(host.socks), queries=[])
+        box.update(tr=tr, uni=uni, infos=infos, zc=zc, layout=layout, rx_i=rx_i, rx_v6=rx_v6, lis=rx_tr.protocol, nsocks=len(host.socks), socks=list(host.socks), queries=[])
         qid = rng.randrange(1, 60000)
         # flowinfo / scope id of the link-local peers: fixed per peer for the scenario (the listener keys deferred packets by the
         # address string alone, the model by the whole address part of the sockaddr), and in general not the receiving socket's
         v6peer = {ip: (rng.choice([0, 0, 7]), rng.choice([3, 3, 4, 9, 0])) for ip in ("fe80::9", "fe80::8")}
+        v6peer["2001:db8::9"] = (0, 0)                     # a global address: no scope
+        v6peer["::ffff:10.0.0.9"] = (0, 0)                 # an IPv4-mapped source on an IPv6 socket
+
+        def deliver(data, src, **kw):
+            box["queries"].append(dict(t=sim.loop.ms, src=src, data=data, **kw))
+            rx_tr.protocol.datagram_received(data, src)
+
+        def peer(ip4, ip6, port):
+            if rx_v6 and ip6 == "fe80::9" and xr.random() < 0.25:
+                ip6 = xr.choice(["2001:db8::9", "::ffff:10.0.0.9"])
+            return ((ip6, port) + v6peer[ip6]) if rx_v6 else (ip4, port)
+
+        if mode == "v6own":
+            # finding D29: an IPv6-only host has heard its own announcement (the AAAA record with the socket's scope id); QU and QM questions
+            # for the addresses well inside a quarter of the TTL / inside the last second
+            from zeroconf import DNSOutgoing, DNSQuestion, const as _k
+            inf = infos[0]
+            for k_ in range(xr.choice([1, 2, 3])):
+                out = DNSOutgoing(_k._FLAGS_QR_QUERY)
+                for typ in xr.choice([[_k._TYPE_AAAA], [_k._TYPE_A, _k._TYPE_AAAA], [_k._TYPE_ANY]]):
+                    q = DNSQuestion(inf.server, typ, _k._CLASS_IN)
+                    q.unicast = xr.random() < 0.7
+                    out.add_question(q)
+                d = bytearray(out.packets()[0]); d[1] = k_
+                deliver(bytes(d), peer("10.0.0.9", "fe80::9", 5353), family="v6own")
+                await sim.sleep_ms(xr.choice([1, 300, 1001, 2500]))
+            await sim.sleep_ms(3000)
+            box["end_t"] = sim.loop.ms
+            tr.uninstall()
+            await vsim.close_host(host)
+            return
+
+        if mode in ("update", "unregister"):
+            await registry_family(sim, xr, box, zc, tr, uni, infos, deliver, peer)
+            await sim.sleep_ms(3000)
+            box["end_t"] = sim.loop.ms
+            tr.uninstall()
+            await vsim.close_host(host)
+            return
+
+        if mode == "big":
+            from zeroconf import DNSOutgoing, DNSQuestion, const as _k
+            for _ in range(xr.choice([1, 2, 3])):
+                await sim.sleep_ms(xr.choice([0, 1, 130, 1001, 2500]))
+                if xr.random() < 0.4:
+                    r = xr.choice(uni.recs)
+                    e = R.with_ttl(r, int(r.ttl))
+                    e.created = float(sim.loop.ms - xr.choice([0, 999, 1000, 250 * int(r.ttl) - 1, 250 * int(r.ttl)]))
+                    for x_ in plant(zc, e):
+                        tr.pokes.append((sim.loop.ms, uni.id(x_)))
+                port = xr.choice([5353, 5353, 40000, 65535, 5354])
+                qs = xr.choice([[("_a._tcp.local.", _k._TYPE_PTR)], [("_a._tcp.local.", _k._TYPE_PTR)], [("_a._tcp.local.", _k._TYPE_ANY)],
+                                [(_k._SERVICE_TYPE_ENUMERATION_NAME, _k._TYPE_PTR), ("_a._tcp.local.", _k._TYPE_PTR)],
+                                [(infos[0].server, _k._TYPE_A), ("_a._tcp.local.", _k._TYPE_PTR)]])
+                out = DNSOutgoing(_k._FLAGS_QR_QUERY)
+                for (name, typ) in qs:
+                    q = DNSQuestion(name, typ, _k._CLASS_IN)
+                    q.unicast = port == 5353 and xr.random() < 0.5
+                    out.add_question(q)
+                if xr.random() < 0.2:
+                    out.add_authorative_answer(infos[0].dns_pointer())
+                d = bytearray(out.packets()[0])
+                ident = xr.choice([0, 1, 0xFFFF, 0x1234]) if port != 5353 else xr.choice([0, 0, 7])
+                d[0], d[1] = ident >> 8, ident & 255
+                deliver(bytes(d), peer(xr.choice(["10.0.0.9", "10.0.0.8"]), "fe80::9", port), id=ident)
+            await sim.sleep_ms(3000)
+            box["end_t"] = sim.loop.ms
+            tr.uninstall()
+            await vsim.close_host(host)
+            return
+
         for _ in range(rng.choice([1, 2, 3, 4, 6])):
             await sim.sleep_ms(rng.choice([0, 1, 20, 130, 501, 1001, 1300, 2500, rng.randint(0, 4000)]))
             now = sim.loop.ms
@@ -229,8 +505,8 @@ def run_scenario(seed, sc_no):
                 age = rng.choice([250 * ttl - 1, 250 * ttl, 250 * ttl + 1, 0, 999, 1000, 1001, 250 * ttl - 1, 250 * ttl])
                 e = R.with_ttl(r, ttl)
                 e.created = float(now - age)
-                zc.cache.async_add_records([e])
-                tr.pokes.append((now, uni.id(r)))
+                for x_ in plant(zc, e):
+                    tr.pokes.append((now, uni.id(x_)))
             port = rng.choice([5353, 5353, 5353, 40000, 1, 65535, 5354])
             # message ids: boundary-biased, above all for legacy sources (one-shot resolvers do send id 0)
             qid = (qid + rng.randrange(1, 5000)) % 65536 or 1
@@ -300,6 +576,34 @@ def run_scenario(seed, sc_no):
             src = source()
             box["queries"].append(dict(t=now, src=src, data=data, id=qid, probe=probe))
             rx_tr.protocol.datagram_received(data, src)
+
+        if mode == "twin":
+            # second review, 1(a): the same bytes from two different resolvers (legacy source ports, no QU question) within a second --
+            # each of them is owed its own unicast reply; and the control: a true repeat (same sockaddr), which C16 wants dropped
+            await sim.sleep_ms(xr.choice([1100, 1500, 3000]))
+            port = xr.choice([40000, 1, 65535, 5354])
+            pool = R.question_pool(infos)
+            questions = [xr.choice(pool[:len(pool) - 4]) for _ in range(xr.choice([1, 1, 2]))]
+            data, _q, _u = R.build_query(xr, infos, uni, xr.choice([0, 0, 1, 0xBEEF]), questions=questions, qus=[False] * len(questions), probe=False, known_p=0.0)
+            a = peer("10.0.0.9", "fe80::9", port)
+            other = xr.choice(["ip", "port", "same"])
+            b2 = peer("10.0.0.8", "fe80::8", port) if other == "ip" else peer("10.0.0.9", "fe80::9", port + 1 if port < 65535 else 40001) if other == "port" else a
+            deliver(data, a, id=None, family="twin-legacy")
+            await sim.sleep_ms(xr.choice([0, 1, 10, 10, 300, 998, 999]))
+            deliver(data, b2, id=None, family="twin-legacy", twin=other)
+        if mode == "ports":
+            # second review, 1(b): two resolvers on one host (same address, different source ports): one sends a truncated packet that is
+            # being held, the other a plain query -- two queries, two replies
+            await sim.sleep_ms(xr.choice([1100, 1500, 3000]))
+            p1 = xr.choice([40000, 5353, 5354])
+            p2 = xr.choice([40001, 1, 65535])
+            pool = R.question_pool(infos)
+            d1, _q, _u = R.build_query(xr, infos, uni, 7, questions=[xr.choice(pool[:len(pool) - 4])], qus=[False], tc=True, probe=False, known_p=0.0)
+            d2, _q, _u = R.build_query(xr, infos, uni, 9, questions=[xr.choice(pool[:len(pool) - 4])], qus=[False], probe=False, known_p=0.0)
+            deliver(d1, peer("10.0.0.9", "fe80::9", p1), id=7, family="two-ports")
+            await sim.sleep_ms(xr.choice([0, 1, 100, 399]))
+            deliver(d2, peer("10.0.0.9", "fe80::9", p2), id=9, family="two-ports")
+            await sim.sleep_ms(700)
         await sim.sleep_ms(3000)
         box["end_t"] = sim.loop.ms
         tr.uninstall()
@@ -310,177 +614,482 @@ def run_scenario(seed, sc_no):
     finally:
         if "tr" in box:
             box["tr"].uninstall()
+        if "v6loop" in box:
+            box.pop("v6loop").remove()
     box["errors"] = [str(e.get("exception") or e.get("message")) for e in sim.errors]
     return box
 
 
-def spec_routes(tr, b, pkt):
-    """the property's routing of every answer of an ordinary (single packet) query:
-    -> (exp_ucast, exp_mcast_now, exp_mcast_later), from the English sentence"""
-    asm = b["asm"]
-    seen = {i: (c, ttl) for (i, c, ttl) in asm["seen"]}
+def spec_routes(asm, pkts, view="seen_blind"):
+    """the property's routing of every answer of a query (one datagram, or a truncated train taken as one query: probe if any
+    packet carries an authority section, known answers of the non-probe packets together, question count and first question
+    of the first packet, clock of the last packet): -> (exp_ucast, exp_mcast_now, exp_mcast_later, dontcare), from the English sentence"""
+    # "seen multicast": the cached copy of the record, found as it is on the wire (`seen_blind`: ignoring the scope id of the receiving
+    # interface) -- `seen` is what the code's own look-up finds
+    seen = {i: (c, ttl) for (i, c, ttl) in asm.get(view, asm["seen"])}
     t = asm["last_now"]
     legacy = asm["port"] != 5353
-    probe = pkt["num_auth"] > 0
+    probe = any(p["num_auth"] > 0 for p in pkts)
     known = {}
-    if not probe:
-        for rid, ttl in pkt["known"]:
-            known.setdefault(rid, set()).add(ttl)
+    for p in pkts:
+        if p["num_auth"] == 0:
+            for rid, ttl in p["known"]:
+                known.setdefault(rid, set()).add(ttl)
+    first = pkts[0]
     eu, em, el, dontcare = set(), set(), set(), set()
-    for qu, cands in pkt["items"]:
-        for rid, ttl, _adds, suppressible in cands:
-            ks = known.get(rid, set()) if suppressible else set()
-            sup = {kt * 2 > ttl for kt in ks}
-            if sup == {True}:
-                continue
-            if len(sup) == 2:
-                dontcare.add(rid)
-            s = seen.get(rid)
-            recent = s is not None and s[0] + 250 * s[1] > t
-            in1s = s is not None and t - s[0] < 1000
-            if qu and not legacy:
-                if probe:
-                    eu.add(rid)
-                    if not recent:
+    for p in pkts:
+        for qu, cands in p["items"]:
+            for rid, ttl, _adds, suppressible in cands:
+                ks = known.get(rid, set()) if suppressible else set()
+                sup = {kt * 2 > ttl for kt in ks}
+                if sup == {True}:
+                    continue
+                if len(sup) == 2:
+                    dontcare.add(rid)
+                s = seen.get(rid)
+                recent = s is not None and s[0] + 250 * s[1] > t
+                in1s = s is not None and t - s[0] < 1000
+                if qu and not legacy:
+                    if probe:
+                        eu.add(rid)
+                        if not recent:
+                            em.add(rid)
+                    elif recent:
+                        eu.add(rid)
+                    else:
                         em.add(rid)
-                elif recent:
-                    eu.add(rid)
                 else:
-                    em.add(rid)
-            else:
-                if legacy:
-                    eu.add(rid)
-                if probe:
-                    em.add(rid)
-                elif in1s:
-                    el.add(rid)
-                elif pkt["nq"] == 1 and pkt["q0type"] in (33, 1, 28, 47):
-                    em.add(rid)
-                else:
-                    el.add(rid)
+                    if legacy:
+                        eu.add(rid)
+                    if probe:
+                        em.add(rid)
+                    elif in1s:
+                        el.add(rid)
+                    elif first["nq"] == 1 and first["q0type"] in (33, 1, 28, 47):
+                        em.add(rid)
+                    else:
+                        el.add(rid)
     return eu, em, el, dontcare
 
 
+def reply_groups(b):
+    """the datagrams of a block grouped into replies: one `async_send` call = one `DNSOutgoing` (which `packets()` may split into
+    several datagrams); per reply and socket the datagrams in the order they were written"""
+    calls = {}
+    for o in b["outs"]:
+        calls.setdefault(o.get("call"), []).append(o)
+    out = []
+    for call, os_ in calls.items():
+        per_sock = {}
+        for o in os_:
+            per_sock.setdefault(id(o["sock"]), []).append(o)
+        out.append(dict(call=call, mcast=os_[0]["mcast"], per_sock=list(per_sock.values()), outs=os_))
+    return out
+
+
+def raw_q(q):
+    return q.class_ | (0x8000 if q.unique else 0)
+
+
 def check_trace_O(res, box, case):
+    """the property's sentences on every datagram of every block -- receive blocks, truncated-query timer blocks and queue
+    flushes alike (second review: nothing is special to one-datagram receive blocks any more)"""
     from zeroconf import const as k
 
     tr = box["tr"]
     uni = tr.uni
-    nsocks = box["nsocks"]
+    socks = box["socks"]
+    rx_sock = box["lis"].transport.transport.sock
     later_mcast = []
     # which datagrams each reply must be based on (delivered trains, judged from the input: `c12.tc_pass`; its own verdicts are C12's)
     from . import c12 as _c12
     lis_blocks = [b for b in tr.blocks if b["kind"] == "qf" or b.get("lis") is box["lis"]]
     _c12.tc_pass(C.Result("C12"), tr, lis_blocks, case, box.get("end_t", 0))
     parsed_by_data = {b["data"]: b["parsed"] for b in tr.blocks if b["kind"] == "rx" and b.get("parsed")}
+    # ---- nothing leaves the host outside a receive / timer / flush block ("by unicast alone", and nothing unsolicited)
+    def goodbye(o):
+        # the goodbyes of a service the scenario unregistered (sent by the API's own task, outside the blocks): every record has TTL 0
+        from zeroconf._protocol.incoming import DNSIncoming
+        recs = DNSIncoming(o["data"]).answers()
+        return "withdrawn_at" in box and o["t"] >= box["withdrawn_at"] and recs and all(r.ttl == 0 for r in recs)
+
+    for o in [o for o in tr.orphans if not goodbye(o)][:3]:
+        res.violate("C11:unsolicited-datagram", "a datagram to %s leaves the host outside every receive, truncated-query and queue block "
+                    "(%d bytes at %d ms): it answers no query" % (o["to_full"], len(o["data"]), o["t"] - T0), dict(case, at_ms=o["t"] - T0))
+    src_of = {}      # datagram bytes -> full source sockaddr of its latest delivery on this listener
+    prev_rx = None   # the datagram this listener saw last (what the duplicate guard compares with)
+    held = {}        # (address, port) -> the distinct truncated datagrams of that querier still waiting for their reply
     for bi, b in enumerate(tr.blocks):
-        # ---- format of every datagram
-        groups = {}
-        for o in b["outs"]:
-            m = o["msg"]
-            wid, flags, qd, classes, _ = raw_classes(o["data"])
-            recs = m.answers()
-            v6sock = isinstance(o["sock"], Sock6)
-            if o["mcast"] or o["to"][0] == MDNS6:
-                o["mcast"] = True
-                later_mcast.append((bi, o["t"], set(o["ans"])))
-                groups.setdefault((tuple(sorted(o["ans"])), tuple(sorted(o["add"]))), []).append(o)
-                if wid != 0 or flags != 0x8400 or qd != 0:
-                    res.violate("C11:multicast-format", "multicast reply with id %d flags %#x and %d questions" % (wid, flags, qd), dict(case, at_ms=o["t"] - T0))
-                for r in recs:
-                    if r.unique != (r.type != k._TYPE_PTR):
-                        res.violate("C11:flush-bit", "multicast %s type %d carries cache-flush bit = %s" % (r.name, r.type, r.unique), dict(case, at_ms=o["t"] - T0))
-                if o["to"] != ((MDNS6 if v6sock else R.MDNS), 5353):
-                    res.violate("C11:multicast-destination", "multicast reply sent to %s from an %s socket" % (o["to"], "IPv6" if v6sock else "IPv4"), case)
-            else:
-                if any(r.unique for r in recs):
-                    res.violate("C11:unicast-flush-bit", "unicast reply carries a cache-flush bit", dict(case, at_ms=o["t"] - T0))
-                if flags != 0x8400:
-                    res.violate("C11:unicast-format", "unicast reply flags %#x" % flags, case)
-        for key, os_ in groups.items():
-            if len(os_) != nsocks or len({id(o["sock"]) for o in os_}) != nsocks:
-                res.violate("C11:multicast-sockets", "a multicast reply went out on %d of the host's %d sockets" % (len(os_), nsocks), dict(case, at_ms=b["t"] - T0))
-        # ---- every copy of a query with a QU question is owed its reply
-        if (b["kind"] == "rx" and b.get("parsed") and not b["asm"] and b["lis"] is box["lis"] and not (b["parsed"]["flags"] & 0x200)):
+        at = dict(case, at_ms=b["t"] - T0)
+        mine = b["kind"] == "qf" or b.get("lis") is box["lis"]
+        if b["kind"] == "rx" and mine:
+            src_of[b["data"]] = b["src_full"]
+        # a querier is a source sockaddr -- address AND port (second review 1(b)): the datagrams a reply must be based on are the
+        # truncated ones this querier sent before (distinct, not yet answered) and the one at hand
+        own = None
+        if b["kind"] == "rx" and mine and b.get("parsed"):
+            key = (b["src"][0], b["src"][1])
+            if b["parsed"]["flags"] & 0x200:
+                if b["data"] not in held.get(key, []) and (b.get("draws_tc") or not (prev_rx and prev_rx[0] == b["data"])):
+                    held.setdefault(key, []).append(b["data"])
+            elif b["asm"]:
+                own = held.pop(key, []) + [b["data"]]
+        elif b["kind"] == "tc" and mine and b["asm"]:
+            own = held.pop((b["addr"], b["asm"]["port"]), None)
+        # ---- format, socket and destination of every datagram, reply by reply
+        groups = reply_groups(b)
+        for g in groups:
+            if g["mcast"]:
+                later_mcast.append((bi, b["t"], set().union(*[set(o["ans"]) for o in g["outs"]])))
+                counts = sorted(len(x) for x in g["per_sock"])
+                if len(g["per_sock"]) != len(socks) or counts[0] != counts[-1]:
+                    res.violate("C11:multicast-sockets", "a multicast reply of %d datagram(s) went out on %d of the host's %d sockets (datagrams per socket %s)" % (
+                        counts[-1], len(g["per_sock"]), len(socks), counts), at)
+            for o in g["outs"]:
+                wid, flags, qd, classes, m = raw_classes(o["data"])
+                recs = m.answers()
+                v6sock = isinstance(o["sock"], Sock6)
+                if g["mcast"]:
+                    if wid != 0 or flags != 0x8400 or qd != 0:
+                        res.violate("C11:multicast-format", "multicast reply datagram with id %d flags %#x and %d questions" % (wid, flags, qd), at)
+                    for r in recs:
+                        if r.unique != (r.type != k._TYPE_PTR):
+                            res.violate("C11:flush-bit", "multicast %s type %d carries cache-flush bit = %s" % (r.name, r.type, r.unique), at)
+                    name = o["sock"].getsockname()
+                    want_to = (MDNS6, 5353, name[2], name[3]) if v6sock else (R.MDNS, 5353)
+                    if o["to_full"] != want_to:
+                        res.violate("C11:multicast-destination", "multicast reply sent to %s from the %s socket %s (expected %s)" % (
+                            o["to_full"], "IPv6" if v6sock else "IPv4", name, want_to), at)
+                else:
+                    if any(r.unique for r in recs):
+                        res.violate("C11:unicast-flush-bit", "unicast reply carries a cache-flush bit", at)
+                    if any(raw_q(q) >= 0x8000 for q in m._questions):
+                        res.violate("C11:unicast-qu-bit", "a question echoed in a unicast reply carries the top bit of the class field (%s)" % (
+                            [hex(raw_q(q)) for q in m._questions]), at)
+                    if flags != 0x8400:
+                        res.violate("C11:unicast-format", "unicast reply datagram with flags %#x (response + authoritative = 0x8400 expected)" % flags, at)
+                    if o["sock"] is not rx_sock and mine:
+                        res.violate("C11:unicast-socket", "unicast reply (block %s) not sent on the receiving socket" % b["kind"], at)
+        # ---- a query that is not answered at all
+        if b["kind"] == "rx" and mine and b.get("parsed") and not b["asm"] and not (b["parsed"]["flags"] & 0x200):
             pkt = b["parsed"]
             known = {}
             if pkt["num_auth"] == 0:
                 for rid, ttl in pkt["known"]:
                     known.setdefault(rid, set()).add(ttl)
-            owed = sorted({rid for qu, cands in pkt["items"] if qu for (rid, ttl, _a, sup) in cands
-                           if not (sup and known.get(rid) and all(kt * 2 > ttl for kt in known[rid]))})
+            unsup = lambda rid, ttl, sup: not (sup and known.get(rid) and all(kt * 2 > ttl for kt in known[rid]))
+            owed = sorted({rid for qu, cands in pkt["items"] if qu for (rid, ttl, _a, sup) in cands if unsup(rid, ttl, sup)})
+            ago = next((b["t"] - x["t"] for x in reversed(tr.blocks[:bi]) if x["kind"] == "rx" and x["data"] == b["data"]), "?")
             if owed and not b["outs"]:
                 res.violate("C11:qu-question-unanswered",
                             "a query from %s:%d with a QU question (QU/QM pattern %s) was not handled at all: %s get neither a unicast nor a multicast reply "
                             "(an identical datagram had arrived %s ms earlier; RFC 6762 5.4 owes every QU question its reply)" % (
                                 b["src"][0], b["src"][1], "".join("U" if q[3] else "M" for q in pkt["questions"]),
-                                [uni.describe(i) for i in owed],
-                                next((b["t"] - x["t"] for x in reversed(tr.blocks[:bi]) if x["kind"] == "rx" and x["data"] == b["data"]), "?")),
-                            dict(case, at_ms=b["t"] - T0))
-        # ---- a reassembled truncated query: the unicast reply goes to the source, with id and questions of the train's FIRST datagram
-        if b["asm"] and b["asm"]["npkts"] > 1 and b.get("want") and b["lis"] is box["lis"]:
-            first = parsed_by_data.get(b["want"][0])
-            src_full = b["src_full"] if b["kind"] == "rx" else None
-            for o in b["outs"]:
-                if o["mcast"] or first is None:
-                    continue
-                m = o["msg"]
-                at = dict(case, at_ms=b["t"] - T0)
-                legacy = o["to"][1] != 5353
-                if m.id != first["id"]:
-                    res.violate("C11:unicast-id", "reply to a truncated query of %d datagrams has id %d; its first datagram has id %d" % (
-                        len(b["want"]), m.id, first["id"]), at)
-                echoed = [(q.name, q.type, q.class_) for q in m._questions]
-                want_q = [(n, t, c) for (n, t, c, _u) in first["questions"]] if legacy else []
-                if echoed != want_q:
-                    res.violate("C11:question-echo", "reply to a truncated query of %d datagrams (port %d) echoes %s; the first datagram asks %s" % (
-                        len(b["want"]), o["to"][1], echoed, want_q), at)
-                if src_full is not None and o["to_full"] != src_full:
-                    res.violate("C11:unicast-destination", "unicast reply sent to %s, query came from %s" % (o["to_full"], src_full), at)
-        # ---- routing of an ordinary query
-        if b["kind"] == "rx" and b["asm"] and b["asm"]["npkts"] == 1 and b.get("parsed"):
-            pkt = b["parsed"]
-            eu, em, el, dontcare = spec_routes(tr, b, pkt)
-            ucasts = [o for o in b["outs"] if not o["mcast"]]
-            mnow = [o for o in b["outs"] if o["mcast"]]
-            got_u = set().union(*[set(o["ans"]) for o in ucasts]) if ucasts else set()
-            got_m = set().union(*[set(o["ans"]) for o in mnow]) if mnow else set()
-            src = b["src"]
-            at = dict(case, at_ms=b["t"] - T0)
+                                [uni.describe(i) for i in owed], ago), at)
+            legacy_owed = sorted({rid for qu, cands in pkt["items"] for (rid, ttl, _a, sup) in cands if unsup(rid, ttl, sup)}) if b["src"][1] != 5353 else []
+            if legacy_owed and not owed and not b["outs"] and prev_rx is not None and prev_rx[0] == b["data"] and prev_rx[1] != b["src_full"]:
+                # second review 1(a): the duplicate guard compares the bytes only -- a finding (known_findings.json); a repeat from the
+                # *same* sockaddr is C16's business and not judged here
+                res.violate("C11:identical-bytes-other-source-unanswered",
+                            "a query from %s (source port %d, not 5353) gets no unicast reply because the preceding datagram, %s ms earlier from %s, "
+                            "had the same bytes: %s are owed to this querier" % (b["src_full"], b["src"][1], ago, prev_rx[1], [uni.describe(i) for i in legacy_owed]), at)
+            any_owed = sorted({rid for qu, cands in pkt["items"] for (rid, ttl, _a, sup) in cands if unsup(rid, ttl, sup)})
+            repeat = prev_rx is not None and prev_rx[0] == b["data"] and b["t"] - prev_rx[2] < 1000
+            if any_owed and not owed and not b["outs"] and not repeat:
+                # nothing excuses the silence: not a repeat of the preceding datagram (C16), not truncated, the registry has the answers
+                res.violate("C11:query-unanswered", "a query from %s (port %d) is not handled at all: %s are owed a reply (%s) and the datagram is not a "
+                            "repeat of the one before it" % (b["src_full"], b["src"][1], [uni.describe(i) for i in any_owed][:6],
+                                                             "unicast, and the normal multicast" if b["src"][1] != 5353 else "multicast"), at)
+        if b["kind"] == "rx" and mine:
+            prev_rx = (b["data"], b["src_full"], b["t"])
+        # ---- a query that is answered: routing, destination, id, question echo -- one datagram or a truncated train, receive or timer block
+        if b["asm"] and mine and b["kind"] in ("rx", "tc"):
+            asm = b["asm"]
+            port = asm["port"]
+            ucast = [g for g in groups if not g["mcast"]]
+            mnow = [g for g in groups if g["mcast"]]
+            impl_srcs = sorted({(src_of[d][0], src_of[d][1]) for d in asm["datas"] if d in src_of})
+            for key_ in list(held):     # whatever this reply was based on is not waiting any more, whoever sent it
+                held[key_] = [d for d in held[key_] if d not in asm["datas"]]
+                if not held[key_]:
+                    del held[key_]
+            if len(impl_srcs) > 1:
+                # second review 1(b): datagrams of different (address, port) sources taken for one query -- a finding; nothing else is judged
+                f_ = parsed_by_data.get(asm["datas"][0])
+                res.violate("C11:held-tc-merged-with-other-port",
+                            "datagrams from different sources %s (one address, different source ports) were answered as one query: the reply goes to %s "
+                            "with id %s; the other querier gets nothing" % (impl_srcs, [o["to_full"] for g in ucast for o in g["outs"]][:1],
+                                                                           f_["id"] if f_ else "?"), at)
+                continue
+            datas = own or b.get("want") or asm["datas"]
+            pkts = [parsed_by_data.get(d) for d in datas]
+            if not pkts or any(p is None for p in pkts):
+                continue
+            first = pkts[0]
+            srcs = {src_of.get(d) for d in datas}
+            src_full = next(iter(srcs)) if len(srcs) == 1 else None
+            eu, em, el, dontcare = spec_routes(asm, pkts)
+            got_u = set().union(*[set(o["ans"]) for g in ucast for o in g["outs"]]) if ucast else set()
+            got_m = set().union(*[set(o["ans"]) for g in mnow for o in g["outs"]]) if mnow else set()
+            probe = any(p["num_auth"] > 0 for p in pkts)
+            if ((got_u - dontcare) != (eu - dontcare) or (got_m - dontcare) != (em - dontcare)) and asm.get("seen_blind") != asm["seen"]:
+                # finding D29: the code looks its own (scope-less) address record up in a cache that holds it with the scope id of the
+                # IPv6 socket it was heard on.  If the routing is what the property demands for the code's own view of "seen", and the
+                # records that differ are exactly such address records, it is that finding and nothing else
+                su, sm, sl, _dc = spec_routes(asm, pkts, view="seen")
+                scoped = {i for (i, _c, _t) in asm["seen_blind"]} - {i for (i, _c, _t) in asm["seen"]}
+                diff = ((got_u ^ eu) | (got_m ^ em)) - dontcare
+                if (got_u - dontcare) == (su - dontcare) and (got_m - dontcare) == (sm - dontcare) and diff and diff <= scoped:
+                    res.violate("C11:scoped-aaaa-not-recognised-as-seen",
+                                "%s: multicast %s ms ago and heard back on this IPv6 socket, hence cached with scope id -- the look-up with the host's own "
+                                "record (no scope id) misses it: unicast %s / multicast at once %s, the property routes unicast %s / multicast %s" % (
+                                    sorted(uni.describe(i) for i in diff), sorted({asm["last_now"] - c for (i, c, _t) in asm["seen_blind"] if i in diff}),
+                                    sorted(uni.describe(i) for i in got_u)[:6], sorted(uni.describe(i) for i in got_m)[:6],
+                                    sorted(uni.describe(i) for i in eu)[:6], sorted(uni.describe(i) for i in em)[:6]), at)
+                    eu, em, el = su, sm, sl
             if (got_u - dontcare) != (eu - dontcare):
-                res.violate("C11:unicast-set", "unicast answers %s, the property routes %s there (port %d, probe %s)" % (
-                    sorted(uni.describe(i) for i in got_u), sorted(uni.describe(i) for i in eu), src[1], pkt["num_auth"] > 0), at)
+                res.violate("C11:unicast-set", "unicast answers %s, the property routes %s there (port %d, probe %s, %d datagram(s))" % (
+                    sorted(uni.describe(i) for i in got_u)[:8], sorted(uni.describe(i) for i in eu)[:8], port, probe, len(pkts)), at)
             if (got_m - dontcare) != (em - dontcare):
-                res.violate("C11:multicast-now-set", "multicast at once %s, the property routes %s there (port %d, probe %s)" % (
-                    sorted(uni.describe(i) for i in got_m), sorted(uni.describe(i) for i in em), src[1], pkt["num_auth"] > 0), at)
+                res.violate("C11:multicast-now-set", "multicast at once %s, the property routes %s there (port %d, probe %s, %d datagram(s))" % (
+                    sorted(uni.describe(i) for i in got_m)[:8], sorted(uni.describe(i) for i in em)[:8], port, probe, len(pkts)), at)
             b["expect_later"] = el - dontcare
-            for o in ucasts:
-                m = o["msg"]
-                if o["to_full"] != b["src_full"]:
-                    res.violate("C11:unicast-destination", "unicast reply sent to %s, query came from %s (for IPv6 the destination includes "
-                                "flowinfo and scope id of the source)" % (o["to_full"], b["src_full"]), at)
-                if o["sock"] is not box["lis"].transport.transport.sock:
-                    res.violate("C11:unicast-socket", "unicast reply not sent on the receiving socket", at)
-                if m.id != pkt["id"]:
-                    res.violate("C11:unicast-id", "unicast reply id %d, query id %d" % (m.id, pkt["id"]), at)
-                echoed = [(q.name, q.type, q.class_) for q in m._questions]
-                want = [(n, t, c) for (n, t, c, _u) in pkt["questions"]] if src[1] != 5353 else []
-                if echoed != want:
-                    res.violate("C11:question-echo", "unicast reply to port %d carries questions %s, expected %s" % (src[1], echoed, want), at)
-            if len(ucasts) > 1:
-                res.violate("C11:unicast-destination", "%d unicast datagrams for one query" % len(ucasts), at)
+            if len(ucast) > 1:
+                res.violate("C11:unicast-destination", "%d unicast replies for one query" % len(ucast), at)
+            for g in ucast:
+                if len(g["per_sock"]) != 1:
+                    res.violate("C11:unicast-socket", "the unicast reply was written to %d sockets" % len(g["per_sock"]), at)
+                echoed = []
+                for o in g["outs"]:
+                    m = o["msg"]
+                    echoed += [(q.name, q.type, q.class_) for q in m._questions]
+                    if src_full is not None and o["to_full"] != src_full:
+                        res.violate("C11:unicast-destination", "unicast reply (%s block, query of %d datagram(s)) sent to %s, query came from %s (for IPv6 the "
+                                    "destination includes flowinfo and scope id of the source)" % (b["kind"], len(pkts), o["to_full"], src_full), at)
+                    if m.id != first["id"]:
+                        res.violate("C11:unicast-id", "a datagram of the reply to a query of %d datagram(s) has id %d; the query's (first datagram's) id is %d" % (
+                            len(pkts), m.id, first["id"]), at)
+                want_q = [(n, t, c) for (n, t, c, _u) in first["questions"]] if port != 5353 else []
+                if echoed != want_q:
+                    res.violate("C11:question-echo", "reply to a query of %d datagram(s) from port %d echoes %s over its %d datagram(s); the query asks %s" % (
+                        len(pkts), port, echoed, len(g["outs"]), want_q), at)
     # ---- "in addition to the normal multicast": what was routed to a queue does get multicast
     for bi, b in enumerate(tr.blocks):
         for rid in b.get("expect_later", ()):
+            if rid in box.get("withdrawn", ()) and box["withdrawn_at"] <= b["t"] + 1200:
+                continue  # withdrawn while it waited in a queue: the goodbye replaces it (C08)
             if not any(bj >= bi and b["t"] <= s <= b["t"] + 1200 and rid in ans for (bj, s, ans) in later_mcast):
                 res.violate("C11:multicast-missing", "%s is owed a multicast reply and none follows within 1.2 s" % uni.describe(rid), dict(case, at_ms=b["t"] - T0))
 
 
+# ------------------------------------------------------------------------------------------
+# the socket level (`lean/Zc/Model/ReplyNet.lean`, driver `c11net` / `c11bytes`)
+
+
+def kind_of(r):
+    """which of the responder's seven constructor sites builds a record of this shape (decided from the Python class, the
+    record type and, for pointers, the owner name -- never from the class / cache-flush bits, which are what is compared)"""
+    from zeroconf import _dns as d, const as k
+
+    if isinstance(r, d.DNSNsec):
+        return "nsec"
+    if isinstance(r, d.DNSAddress):
+        return "aaaa" if r.type == k._TYPE_AAAA else "a"
+    if isinstance(r, d.DNSService):
+        return "srv"
+    if isinstance(r, d.DNSText):
+        return "txt"
+    if isinstance(r, d.DNSPointer):
+        return "enum" if r.name == k._SERVICE_TYPE_ENUMERATION_NAME else "ptr"
+    return "-"
+
+
+def erec_line(r):
+    """a library record the way `Wire.Encode.ERecord.parse` reads it (as handed to the encoder: its own TTL, created 0)"""
+    from zeroconf import _dns as d
+
+    head = "%s %d %d %s %d 0" % (W.name_tok(r.name), r.type, r.class_, C.b01(r.unique), int(r.ttl))
+    if isinstance(r, d.DNSAddress):
+        return "%s a %s" % (head, C.hx(r.address))
+    if isinstance(r, d.DNSPointer):
+        return "%s p %s" % (head, W.name_tok(r.alias))
+    if isinstance(r, d.DNSText):
+        return "%s t %s" % (head, C.hx(r.text))
+    if isinstance(r, d.DNSService):
+        return "%s s %d %d %d %s" % (head, r.priority, r.weight, r.port, W.name_tok(r.server))
+    if isinstance(r, d.DNSNsec):
+        return "%s n %s %s" % (head, W.name_tok(r.next_name), C.natlist(r.rdtypes))
+    raise TypeError(type(r))
+
+
+def equestion_line(name, typ, cls, unique):
+    return "%s %d %d %s" % (W.name_tok(name), typ, cls, C.b01(unique))
+
+
+def bytes_line(unicast, us, ident, questions, ans, adds):
+    """driver line `c11bytes`: the reply constructor applied to these records in this order"""
+    return "c11bytes %s %s %d %d%s %d%s %d%s" % (
+        C.b01(unicast), C.b01(us), ident, len(questions), "".join(" " + equestion_line(*q) for q in questions),
+        len(ans), "".join(" " + erec_line(r) for r in ans), len(adds), "".join(" " + erec_line(r) for r in adds))
+
+
+def world_str(box, tr, blocks):
+    """the host as `Driver.C11.pWorld` reads it: sockets, receiving socket, peers behind the address ids, question sections of the
+    received datagrams, constructor site of every record of the universe.  Call after the events were serialised (ids are
+    handed out while serialising)."""
+    socks = box["socks"]
+    parts = [str(len(socks))]
+    for i, s in enumerate(socks):
+        name = s.getsockname()
+        v6 = isinstance(s, Sock6)
+        parts.append("%d %s %d %d" % (i, C.b01(v6), name[2] if v6 else 0, name[3] if v6 else 0))
+    parts.append(str(box["rx_i"]))
+    ip_ids = tr.__dict__.setdefault("ip_ids", {})
+    parts.append(str(len(tr.addr_ids)))
+    for akey, aid in tr.addr_ids.items():
+        ip = akey[0]
+        parts.append("%d %d %s %s" % (aid, ip_ids.setdefault(ip, len(ip_ids) + 1), C.b01(":" in ip),
+                                      "-" if len(akey) == 1 else "%d %d" % (akey[1], akey[2])))
+    qs = {}
+    for b in blocks:
+        if b["kind"] == "rx" and b.get("parsed"):
+            qs.setdefault(tr.data_id(b["data"]), b["parsed"]["questions"])
+    parts.append(str(len(qs)))
+    for did, questions in qs.items():
+        parts.append("%d %d%s" % (did, len(questions), "".join(" " + equestion_line(*q) for q in questions)))
+    parts.append(str(len(tr.uni.recs)))
+    parts += [kind_of(r) for r in tr.uni.recs]
+    return " ".join(parts)
+
+
+def strip_obs(obs, gone):
+    """a logical observation with the withdrawn records taken out of every multicast's answers and its additionals dropped; a multicast
+    left without answers disappears"""
+    outs, draws = obs.split(" ", 1)
+    keep = []
+    items = [] if outs == "-" else _split_outs(outs)
+    for it in items:
+        if it.startswith("m:"):
+            ans = [x for x in it.split(":")[1].split(",") if x != "-" and int(x) not in gone]
+            if ans:
+                keep.append("m:%s:*" % ",".join(ans))
+        else:
+            keep.append(it)
+    return "%s %s" % (",".join(sorted(keep)) or "-", draws)
+
+
+def _split_outs(outs):
+    """the descriptors of `block_obs11` (comma-separated, and commas occur inside them): split at the `m:` / `u:` heads"""
+    import re
+    idx = [m.start() for m in re.finditer(r"(?:^|,)(?=[mu]:)", outs)]
+    parts = []
+    for a, b_ in zip(idx, idx[1:] + [len(outs)]):
+        parts.append(outs[a:b_].strip(","))
+    return parts
+
+
+def strip_phys(phys, gone):
+    """the same for the physical descriptors: multicast datagrams (id 0 to a group address) keep their non-withdrawn answers only"""
+    keep = []
+    for it in ([] if phys == "-" else phys.split(" ")):
+        head, wid, flags, qs, ans, add = it.split("|")
+        if ">g4/" in head or ">g6/" in head:
+            left = [x for x in ans.split(",") if x != "-" and int(x.split(".")[0]) not in gone]
+            if left:
+                keep.append("|".join([head, wid, flags, qs, ",".join(left), "*"]))
+        else:
+            keep.append(it)
+    return " ".join(sorted(keep)) or "-"
+
+
+def block_obs11(tr, b):
+    """the logical observation of a block in `c12run`'s format (`reply_common.block_obs`), with the datagrams of one reply
+    (`DNSOutgoing.packets()` may split it) taken together: one descriptor per unicast reply / per multicast reply"""
+    for o in b["outs"]:
+        R.decode_out(tr, o)
+    outs = []
+    for g in reply_groups(b):
+        one = g["per_sock"][0]                      # the same message on every socket
+        ans = C.natlist(sorted(i for o in one for i in o["ans"]))
+        add = C.natlist(sorted(i for o in one for i in o["add"]))
+        if g["mcast"]:
+            outs.append("m:%s:%s" % (ans, add))
+        else:
+            o0 = one[0]
+            outs.append("u:%d:%d:%d:%d:%s:%s" % (tr.addr_id(o0["akey"]), o0["to"][1], o0["msg"].id, sum(len(o["msg"]._questions) for o in one), ans, add))
+    outs = sorted(outs)
+    draws = ",".join("%d/%d/%d" % d for d in b["draws"])
+    return "%s %s" % (",".join(outs) if outs else "-", draws or "-")
+
+
+def block_phys(tr, box, b):
+    """every reply of the block as it is on the sockets (same format as the driver's `physStr`), per socket: socket index, complete
+    destination sockaddr, raw id / flags, questions with the raw class field, records with the raw class field.  The datagrams of
+    a split reply are taken together (id, flags and destination of the first; every datagram is judged by the oracle and compared
+    byte for byte through `c11bytes`)."""
+    ip_ids = tr.__dict__.setdefault("ip_ids", {})
+    out = []
+    raw = lambda e: e.class_ | (0x8000 if e.unique else 0)
+    for g in reply_groups(b):
+        for one in g["per_sock"]:
+            o0 = one[0]
+            to = o0["to_full"]
+            ip = "g4" if to[0] == R.MDNS else "g6" if to[0] == MDNS6 else "p%d" % ip_ids.setdefault(to[0], len(ip_ids) + 1)
+            fs = "-" if len(to) == 2 else "%d.%d" % (to[2], to[3])
+            try:
+                si = next(i for i, s in enumerate(box["socks"]) if s is o0["sock"])
+            except StopIteration:
+                si = -1
+            wid, flags, _qd, _cl, _m = raw_classes(o0["data"])
+            qs, ans, add = [], [], []
+            for o in one:
+                m = o["msg"]
+                a, x = R.split_sections(m)
+                qs += ["%s:%d:%d" % (W.name_tok_labels(q.name), q.type, raw(q)) for q in m._questions]
+                ans += [(tr.uni.id(r), r.type, raw(r)) for r in a]
+                add += [(tr.uni.id(r), r.type, raw(r)) for r in x]
+            rs = lambda l: ",".join("%d.%d.%d" % x for x in sorted(l)) or "-"
+            out.append("%d>%s/%d/%s|%d|%d|%s|%s|%s" % (si, ip, to[1], fs, wid, flags, "+".join(qs) or "-", rs(ans), rs(add)))
+    return " ".join(sorted(out)) or "-"
+
+
+def trace_byte_lines(tr, box, kept):
+    """for every reply the host sent in a kept block, per socket: the `c11bytes` line that rebuilds it from the *query* (id and
+    questions of the first packet the reply must be based on, legacy-ness of the source port) and the registry's own record objects
+    in the order they are on the wire; expected: exactly the datagrams sent, byte for byte, however the reply splits"""
+    parsed_by_data = {b["data"]: b["parsed"] for b in tr.blocks if b["kind"] == "rx" and b.get("parsed")}
+    lines, exp, cases = [], [], []
+    own = lambda l: [tr.uni.recs[tr.uni.id(r)] for r in l]
+    for b in kept:
+        for g in reply_groups(b):
+            for one in g["per_sock"]:
+                ans, add = [], []
+                for o in one:
+                    a, x = R.split_sections(o["msg"])
+                    ans += a
+                    add += x
+                if g["mcast"]:
+                    lines.append(bytes_line(False, False, 0, [], own(ans), own(add)))
+                else:
+                    asm = b.get("asm")
+                    # the first packet of the query as delivered (`tc_pass`), not as the implementation assembled it
+                    datas = b.get("want") or (asm["datas"] if asm else None)
+                    first = parsed_by_data.get(datas[0]) if asm and datas else None
+                    if first is None:
+                        continue
+                    lines.append(bytes_line(True, asm["port"] != 5353, first["id"], first["questions"], own(ans), own(add)))
+                exp.append("ok " + " ".join(C.hx(o["data"]) for o in one))
+                cases.append(dict(at_ms=b["t"] - T0, to=one[0]["to_full"], datagrams=len(one)))
+    return lines, exp, cases
+
+
 def run_trace_stream(ctx, res, n, only=None):
     lines, boxes = [], []
+    blines, bexp, bcases = [], [], []
     todo = only if only is not None else [(ctx["seed"], k) for k in range(n)]
-    for (seed, sc_no) in todo:
-        box = run_scenario(seed, sc_no)
+    for item in todo:
+        seed, sc_no = item[0], item[1]
+        box = run_scenario(seed, sc_no, item[2] if len(item) > 2 else None)
         tr = box["tr"]
         evs, kept = [], []
         for b in tr.blocks:
@@ -488,43 +1097,85 @@ def run_trace_stream(ctx, res, n, only=None):
             if b["kind"] in ("rx", "tc") and b["lis"] is not box["lis"]:
                 continue  # another socket's listener: its own duplicate guard, outside this model instance
             line = R.block_line(tr, box["zc"], b)
-            b["obs"] = R.block_obs(tr, b, dedupe_mcast=True)
+            b["obs"] = block_obs11(tr, b)
             evs.append(line)
             kept.append(b)
         for b in tr.blocks:
             if "obs" not in b:
                 R.block_line(tr, box["zc"], b)
                 b["obs"] = R.block_obs(tr, b)
-        lines.append("c12run %d %s" % (len(evs), " ".join(evs)))
+        # the socket level: every datagram of every kept block with its socket, complete destination, questions, class fields
+        world = world_str(box, tr, kept)
+        for b in kept:
+            b["phys"] = block_phys(tr, box, b)
+        import zeroconf._handlers.query_handler as _qh
+        lines.append("c11net %s %s %s %d %s" % (C.b01(hasattr(_qh, "_without_scope_id")), C.b01(hasattr(_qh._QueryResponse, "_get_unique_ignoring_scope")),
+                                                world, len(evs), " ".join(evs)))
+        case0 = {"stream": "tr", "seed": seed, "scenario": sc_no, "mode": box["mode"]}
+        # which datagrams each reply must be based on, judged from what was delivered (sets b["want"]; verdicts are C12's)
+        from . import c12 as _c12
+        _c12.tc_pass(C.Result("C12"), tr, [b for b in tr.blocks if b["kind"] == "qf" or b.get("lis") is box["lis"]], case0, box.get("end_t", 0))
+        bl, be, bc = trace_byte_lines(tr, box, kept)
+        blines += bl
+        bexp += be
+        bcases += [dict(case0, **c) for c in bc]
         boxes.append((seed, sc_no, box, kept))
-    model = None
+    model = bmodel = None
     if ctx["driver_ok"]:
         try:
             model = C.run_driver(lines)
+            bmodel = C.run_driver(blines)
         except C.DriverUnavailable as ex:
             res.notes.append("driver unavailable: %s" % ex)
+    if bmodel is not None:
+        res.count("tr:datagrams-byte-exact", len(blines))
+        bad = 0
+        for i, case in enumerate(bcases):
+            if bmodel[i] != bexp[i] and bad < 5:
+                bad += 1
+                res.disagree("c11bytes", dict(case, line=blines[i][:400]), bexp[i][:200], bmodel[i][:200])
     for idx, (seed, sc_no, box, kept) in enumerate(boxes):
         res.count("tr:scenarios")
+        res.count("tr:mode:" + box["mode"])
+        res.count("tr:split-replies", sum(1 for b in kept for g in reply_groups(b) if len(g["per_sock"][0]) > 1))
         # one evaluation = one received datagram whose handling (routing, format) is compared and judged
         res.evaluations += max(1, sum(1 for b in kept if b["kind"] == "rx"))
         tr = box["tr"]
-        case = {"stream": "tr", "seed": seed, "scenario": sc_no, "sockets": box["layout"], "receiving_socket": box["rx_i"],
+        case = {"stream": "tr", "seed": seed, "scenario": sc_no, "mode": box["mode"], "sockets": box["layout"], "receiving_socket": box["rx_i"],
                 "services": [(i.name, i.server, i.host_ttl, i.other_ttl) for i in box["infos"]],
                 "queries": [dict(t=q["t"] - T0, src=q["src"], data=q["data"].hex()) for q in box["queries"]]}
         if box["errors"]:
             res.disagree("c11run", case, "exception in a callback: %s" % box["errors"][:2], "no exception")
         if model is not None:
             parts = model[idx].split(" | ")
-            head, mobs = parts[0], parts[1:]
-            if mobs == [""]:
-                mobs = []
+            head, mboth = parts[0], parts[1:]
+            if mboth == [""]:
+                mboth = []
+            mobs = [x.split(" ;; ")[0] for x in mboth]
+            mphys = [x.split(" ;; ")[1] if " ;; " in x else None for x in mboth]
             iobs = [b["obs"] for b in kept]
+            iphys = [b["phys"] for b in kept]
+            if "withdrawn_at" in box:
+                # `async_remove_answers` (an unregistration while answers are queued) is not in the Reply model (C12's package adds it):
+                # from the unregistration on, multicasts are compared on their answers that were not withdrawn; additionals not at all
+                gone = box["withdrawn"]
+                for j, b in enumerate(kept):
+                    if b["t"] >= box["withdrawn_at"]:
+                        if j < len(mobs):
+                            mobs[j], iobs[j] = strip_obs(mobs[j], gone), strip_obs(iobs[j], gone)
+                        if j < len(mphys) and mphys[j] is not None:
+                            mphys[j], iphys[j] = strip_phys(mphys[j], gone), strip_phys(iphys[j], gone)
             if not head.startswith("ok") or mobs != iobs:
                 kk = next((j for j, (a, b) in enumerate(zip(mobs, iobs)) if a != b), min(len(mobs), len(iobs)))
                 res.disagree("c11run", dict(case, at_block=kk, at_ms=(kept[kk]["t"] - T0) if kk < len(kept) else None),
                              iobs[kk] if kk < len(iobs) else None, (head, mobs[kk] if kk < len(mobs) else None))
+            elif mphys != iphys:
+                # the logical datagrams agree; what is on the sockets (socket, complete sockaddr, id, flags, questions, class fields) does not
+                kk = next((j for j, (a, b) in enumerate(zip(mphys, iphys)) if a != b), min(len(mphys), len(iphys)))
+                res.disagree("c11net", dict(case, at_block=kk, at_ms=(kept[kk]["t"] - T0) if kk < len(kept) else None),
+                             iphys[kk] if kk < len(iphys) else None, mphys[kk] if kk < len(mphys) else None)
         check_trace_O(res, box, case)
-        for (rid, s_, c_, e_) in R.sighting_gaps(tr, maxdelay=0)[:2]:
+        for (rid, s_, c_, e_) in [g_ for g_ in R.sighting_gaps(tr, maxdelay=0) if g_[0] not in box.get("withdrawn", ())][:2]:
             res.disagree("sightings", dict(case, at_ms=c_), "cache entry of %s at %d ms: %s" % (tr.uni.describe(rid), c_, e_),
                          "the host multicast it at %d ms: its own transmission must have re-stamped the cache" % s_)
         for b in kept:
@@ -537,24 +1188,30 @@ def run_trace_stream(ctx, res, n, only=None):
                 if b["outs"]:
                     res.nontriv("tr/" + shape + "/" + ",".join(sorted({x[0] for x in b["obs"].split(" ")[0].split(",")})))
         if idx < 2:
-            res.sample({"scenario": sc_no, "blocks": [(b["kind"], b["t"] - T0, b["obs"]) for b in kept[:10]]})
+            res.sample({"scenario": sc_no, "blocks": [(b["kind"], b["t"] - T0, b["obs"], b["phys"]) for b in kept[:10]]})
 
 
 def run(ctx):
     res = _Result("C11")
     res.rule = ("fmt: every record kind x class with/without top bit x multicast/unicast x ids {0,1,0xabcd,65535}; send: socket family x 6 address spellings; "
-                "tr: responder scenarios (1..3 services, TTLs 1..4500 s; socket layouts {4, 46, 64, 44, 446}, queries received on any one socket; 1..6 queries of 1..4 questions, QU/QM per "
+                "tr: responder scenarios in six families -- classic (1..3 services), big (10..40 services of one type: split replies), twin (identical bytes from another "
+                "source sockaddr), ports (two source ports of one address around a held truncated packet), update (the only service updated), unregister (a sibling withdrawn "
+                "while answers are queued) -- TTLs 1..4500 s; socket layouts {4, 46, 64, 44, 446}, queries received on any one socket; 1..6 queries of 1..4 questions, QU/QM per "
                 "question, +/- authority section, any id, source ports {5353, 40000, 1, 65535, 5354}, cache pokes at ttl/4 -1/0/+1 ms and around 1 s); "
+                "per datagram compared with the model: socket, complete destination sockaddr (IPv6 flowinfo / scope id), id, flags, question section, raw class field of "
+                "every record (c11net), and the bytes (c11bytes: reply constructor + C01's encoder model); "
                 "non-trivial = distinct (port class, probe, QU/QM pattern, sockets, receiving family, kinds of datagrams emitted) with at least one reply")
     bt = C.Budget(ctx["tier"], 1500, 30000).n
     if ctx["widened"]:
         bt *= 3
     for name, body in C.load_corpus("C11"):
         if body.get("kind") == "trace":
-            run_trace_stream(ctx, res, 0, only=[(body["seed"], body["scenario"])])
+            run_trace_stream(ctx, res, 0, only=[(body["seed"], body["scenario"], body.get("mode"))])
     run_fmt_stream(ctx, res)
     run_send_stream(ctx, res)
-    run_trace_stream(ctx, res, bt)
+    # in chunks: a chunk's traces are dropped before the next is generated (thorough: 30 000 scenarios)
+    for start in range(0, bt, 500):
+        run_trace_stream(ctx, res, 0, only=[(ctx["seed"], k_) for k_ in range(start, min(bt, start + 500))])
     return res
 
 
@@ -563,7 +1220,7 @@ def replay(body):
     res = _Result("C11")
     ctx = {"tier": "quick", "seed": case.get("seed", 0), "widened": False, "driver_ok": C.DRIVER.exists(), "stages": {}}
     if case.get("stream") == "tr":
-        run_trace_stream(ctx, res, 0, only=[(case["seed"], case["scenario"])])
+        run_trace_stream(ctx, res, 0, only=[(case["seed"], case["scenario"], case.get("mode"))])
     elif case.get("stream") == "fmt":
         run_fmt_stream(ctx, res)
     else:
